@@ -206,9 +206,54 @@ func runProp(p *Program, id, tier string) (r *Result) {
 	if len(violKeys(ra)) == 0 || os.Getenv("VERIF_NOVIEWS") != "" || noViewProps[id] {
 		return ra
 	}
+	// rules whose subject is a call boundary (what a callee can hand back) lose their subjects when the callee is
+	// folded in: their findings on the code as written stand
+	for _, ob := range violKeys(ra) {
+		if finalRules[ob.Rule] && ob.Status == Violated {
+			return ra
+		}
+	}
 	p.setViews(true)
 	rb := runPropOnce(p, id, tier)
+	var foldedKeys []string
+	for _, f := range p.UFuncs() {
+		if p.folded(f) {
+			foldedKeys = append(foldedKeys, fnKey(f)+":")
+		}
+	}
 	p.setViews(false)
+	// a rule that reported something on the code as written must still have at least as many subjects on the
+	// views: a view in which the rule finds nothing to look at has not decided anything
+	if len(violKeys(rb)) == 0 {
+		// (obligations attached to a helper that the views fold into its callers move there with it)
+		inFolded := func(key string) bool {
+			for _, fk := range foldedKeys {
+				if strings.Contains(key, fk) || strings.HasSuffix(key, strings.TrimSuffix(fk, ":")) {
+					return true
+				}
+			}
+			return false
+		}
+		cnt := func(r *Result) map[string]int {
+			m := map[string]int{}
+			for _, ob := range r.Obls {
+				if inFolded(ob.Key) {
+					continue
+				}
+				m[ob.Rule]++
+			}
+			return m
+		}
+		ca, cb := cnt(ra), cnt(rb)
+		for _, ob := range violKeys(ra) {
+			// (only for findings proper: an undecided obligation says the rule could not read the code as written,
+			// which is what the views are for)
+			if ob.Status == Violated && ob.Rule != "FLOOR" && ob.Rule != "ROLES" && cb[ob.Rule] < ca[ob.Rule] {
+				ra.Notes = append(ra.Notes, fmt.Sprintf("the inlined views discharge every obligation, but rule %s has fewer subjects there (%d) than on the code as written (%d): the finding on the code as written stands", ob.Rule, cb[ob.Rule], ca[ob.Rule]))
+				return ra
+			}
+		}
+	}
 	if len(violKeys(rb)) == 0 {
 		rb.Notes = append(rb.Notes, fmt.Sprintf("decided on inlined views: on the functions as written %d obligation(s) were not discharged because a rule's subject is spread over helper functions; with those helpers folded into their callers every obligation is discharged", len(violKeys(ra))))
 		rb.Analysed["representation"] = "inlined views (helpers folded into callers)"
@@ -224,6 +269,9 @@ func runProp(p *Program, id, tier string) (r *Result) {
 // noViewProps: properties whose rules are whole-program dataflow analyses over the call graph of the code as
 // written; they do not depend on how functions are split up and are not re-evaluated on views.
 var noViewProps = map[string]bool{"C18": true}
+
+// finalRules: a violation of these rules on the code as written is not re-examined on views.
+var finalRules = map[string]bool{"R-NILCHECK": true, "R-NILIFACE": true, "R-PANIC": true}
 
 func runPropOnce(p *Program, id, tier string) (r *Result) {
 	defer func() {
